@@ -52,9 +52,11 @@ fn next_half(
 ) -> usize {
 	let half = slice.len() / 2;
 
-	// It's not a mistake. We really need a bit-to-bit comparison of float values here
+	// Numeric equality: `+0.0` and `-0.0` compare equal and may sit in any order inside the sorted slice,
+	// so a bit-to-bit comparison could walk past the element it is looking for.
 	// Also it is not a good idea to use `match value.partial_cmp(slice[half]): it is slower.
-	if value.to_bits() == get(slice, half).to_bits() {
+	#[allow(clippy::float_cmp)]
+	if &value == get(slice, half) {
 		padding + half
 	} else if &value > get(slice, half) {
 		f(value, get(slice, (half + 1)..), padding + half + 1)
